@@ -31,6 +31,7 @@ Alphabet ==
        { Op("New", 0, i, "", V(0), "", NoDef, FALSE) : i \in {"soft", "wrap"} }
   \cup { NewOf(i, "rta", TAttrsOnly) : i \in {"soft", "wrap"} } \cup { NewOf(i, "rtr", TRelsOnly) : i \in {"soft", "wrap"} }
   \cup { NewOf(i, "rtc", TCase) : i \in {"soft", "wrap"} }
+  \cup { Op("ZeroNew", 0, "soft", "", V(0), "", NoDef, FALSE) }
   \cup { Op("Set", h, "", p[1], p[2], "", NoDef, FALSE) : h \in H,
             p \in { <<"s", V(1)>>, <<"s", V(2)>>, <<"n", V(0)>>, <<"n", V(1)>>, <<"n", V(2)>>, <<"n", NilV>>, <<"b", V(1)>>, <<"b", V(2)>>,
                     <<"q", V(1)>>, <<"q", NilV>>, <<"o", Ids(<<"a">>)>>, <<"o", Ids(<<>>)>>,
@@ -58,8 +59,8 @@ Populate(impl) == <<
     Op("SetID", 1, "", "", V(0), "i1", NoDef, FALSE) >>
 \* a soft resource whose type has no field at all, and its copy
 Fieldless == << NewOf("soft", "rt0", <<>>), Op("Copy", 1, "", "", V(0), "", NoDef, FALSE) >>
-\* a soft resource that was given no type at all (the zero value of the Go type), and a new one made by it
-Typeless == << NewOf("soft", "", <<>>), Op("NewLike", 1, "", "", V(0), "", NoDef, FALSE) >>
+\* a soft resource that was given no type at all (the zero value of the Go type)
+Typeless == << NewOf("soft", "", <<>>) >>
 Seeds == { <<>>, Populate("soft"), Populate("wrap"), Fieldless, Typeless,
            Populate("soft") \o <<Op("Copy", 1, "", "", V(0), "", NoDef, FALSE)>>,
            Populate("wrap") \o <<Op("Copy", 1, "", "", V(0), "", NoDef, FALSE)>> }
